@@ -218,6 +218,16 @@ fn check_infix(case: &Json, stats: &mut Stats) -> Verdict {
             }
         }
     }
+    if ops.iter().all(|o| matches!(*o, "+" | "-" | "*" | "/" | "%" | "<" | "<=" | ">" | ">=" | "==" | "!=")) {
+        // negative later operands (`x % -10 % 3`: the sign of a remainder follows the dividend)
+        for first in ["17", "(0 - 17)", "9223372036854775807"] {
+            for rest in [["(0 - 10)", "3", "2"], ["(0 - 3)", "(0 - 2)", "5"], ["10", "(0 - 3)", "2"], ["(0 - 5)", "5", "(0 - 5)"]] {
+                let mut v = vec![first];
+                v.extend(rest.iter().take(n - 1));
+                assignments.push(v);
+            }
+        }
+    }
     if ops.iter().all(|o| matches!(*o, "+" | "-" | "*" | "/" | "**" | "<" | "<=" | ">" | ">=" | "==" | "!=")) {
         // float chains: a negative base makes `(x ** 2.0) ** 0.5` differ from `x ** (2.0 * 0.5)`
         for first in ["(0.0 - 3.0)", "(0.0 - 0.5)", "1.0e200"] {
@@ -434,7 +444,17 @@ fn templates() -> Vec<Json> {
     for op in INFIX {
         let operands: &[(&str, &str, &str)] = match op {
             "&&" | "||" => &[("bool", "true", "false"), ("bool", "false", "false")],
-            _ => &[("int", "7", "2"), ("int", "5", "3"), ("int", "-6", "5"), ("bool", "true", "false")],
+            // (!(-6) is 5 and -(-5) is 5: the boundaries of comparisons; MIN_INT is its own negation)
+            _ => &[
+                ("int", "7", "2"),
+                ("int", "5", "3"),
+                ("int", "-6", "5"),
+                ("int", "-5", "5"),
+                ("int", "(-9223372036854775807 - 1)", "5"),
+                ("int", "5", "(-9223372036854775807 - 1)"),
+                ("float", "-2.5", "2.5"),
+                ("bool", "true", "false"),
+            ],
         };
         for (ty, a, b) in operands {
             for (pfx, pname) in [("-", "minus"), ("!", "not")] {
